@@ -58,6 +58,25 @@ def step_account(ctx, r):
         r.ob(all(n in txt for n in need), "vm.rs:can_run:incomplete", VM, c["l"], f"can_run must exclude threads with a pending host call, an error, or done (`{txt}`)", sample=f"can_run: {txt[:90]}")
 
 
+def cond_calls(fn, cond):
+    """Names of `self.<m>(..)` calls a condition depends on, looking through boolean locals (`let done = self.a() || self.b(); if done ..`)."""
+    out = []
+    seen = set()
+
+    def go(e):
+        for x in q.walk(e):
+            if x["k"] == "MethodCall" and q.show(x["recv"]) == "self":
+                out.append(x["m"])
+            if x["k"] == "Path" and x["p"] not in seen:
+                seen.add(x["p"])
+                for l in q.walk(fn["body"]):
+                    if l["k"] == "Local" and l.get("init") is not None and x["p"] in q.pat_bindings(l["pat"]):
+                        go(l["init"])
+
+    go(cond)
+    return out
+
+
 def enclosing_block(body, target):
     best = None
     for b in q.walk(body):
@@ -98,12 +117,89 @@ def status_map(ctx, r):
                     order.append((q.show(e["e"]) + " matches " + q.show_pat(a["pat"]), res[0] if res else "?"))
 
         chain(s["body"])
-        seq = [res for _, res in order]
-        r.ob(seq == ["PendingHostFunc", "Done", "Error", "OutOfSteps"], "vm.rs:VmGreenThread::status:order", VM, s["l"],
-             f"status() must test pending host call, then done, then error, else out of steps; it yields {order}", sample=f"status(): {seq}")
-        conds = " | ".join(c for c, _ in order)
-        r.ob("pending_host_func" in order[0][0] and "done" in order[1][0] and "error" in order[2][0] if len(order) >= 3 else False,
-             "vm.rs:VmGreenThread::status:conditions", VM, s["l"], f"status() conditions: {conds}")
+        # evaluated, not matched: the result for every combination of (pending host call?, done?, error stored?)
+        ATOMS = (("pending_host_func", "P"), ("done", "D"), ("error", "E"))
+
+        def atom_of(e):
+            t = q.show(e)
+            for key, a in ATOMS:
+                if "self." + key in t.replace("& ", "&").replace("&self", "self"):
+                    return a
+            return None
+
+        def pat_ok(pat, val):
+            t = q.show_pat(pat).replace(" ", "")
+            if t == "_" or (pat["k"] == "PIdent" and t not in ("true", "false", "None")):
+                return True
+            if t.startswith(("Some(", "&Some(")):
+                return val is True
+            if t in ("None", "&None"):
+                return val is False
+            if t in ("true", "false"):
+                return val is (t == "true")
+            raise ValueError("pattern " + t)
+
+        def cond_val(c, env):
+            while c["k"] == "Paren":
+                c = c["e"]
+            if c["k"] == "Let":
+                a = atom_of(c["e"])
+                if a is None:
+                    raise ValueError(q.show(c))
+                return pat_ok(c["pat"], env[a])
+            if c["k"] == "Unary" and c.get("op") in ("!", "Not"):
+                return not cond_val(c["e"], env)
+            if c["k"] == "Binary" and c["op"] in ("&&", "||"):
+                x, y = cond_val(c["a"], env), cond_val(c["b"], env)
+                return (x and y) if c["op"] == "&&" else (x or y)
+            if c["k"] == "MethodCall" and c["m"] in ("is_some", "is_none") and atom_of(c["recv"]):
+                v = env[atom_of(c["recv"])]
+                return v if c["m"] == "is_some" else not v
+            a = atom_of(c)
+            if a is not None and c["k"] in ("Field", "Path"):
+                return env[a]
+            raise ValueError(q.show(c))
+
+        def value(e, env):
+            while e["k"] == "Paren":
+                e = e["e"]
+            if e["k"] == "Block":
+                last = e["stmts"][-1]
+                return value(last["e"], env)
+            if e["k"] == "If":
+                return value(e["t"], env) if cond_val(e["c"], env) else value(e["e"], env)
+            if e["k"] == "Match":
+                sc = e["e"]
+                while sc["k"] in ("Paren", "Ref"):
+                    sc = sc["e"]
+                comps = sc["elems"] if sc["k"] == "Tuple" else [sc]
+                atoms = [atom_of(c) for c in comps]
+                if None in atoms:
+                    raise ValueError(q.show(sc))
+                for a in e["arms"]:
+                    pats = a["pat"]["elems"] if a["pat"]["k"] == "PTuple" else [a["pat"]]
+                    if len(pats) == len(atoms) and all(pat_ok(p_, env[at]) for p_, at in zip(pats, atoms)):
+                        return value(a["body"], env)
+                raise ValueError("no arm")
+            for x in q.walk(e):
+                if x["k"] == "Path" and x["p"].startswith("VmStatus::"):
+                    return q.last_seg(x["p"])
+                if x["k"] == "Call" and q.show(x["f"]).startswith("VmStatus::"):
+                    return q.last_seg(q.show(x["f"]))
+            raise ValueError(q.show(e))
+
+        try:
+            table = {}
+            for P in (False, True):
+                for D in (False, True):
+                    for E in (False, True):
+                        table[(P, D, E)] = value(s["body"], {"P": P, "D": D, "E": E})
+            want_t = {(P, D, E): ("PendingHostFunc" if P else "Done" if D else "Error" if E else "OutOfSteps") for P in (False, True) for D in (False, True) for E in (False, True)}
+            bad = {k: (v, want_t[k]) for k, v in table.items() if v != want_t[k]}
+            r.ob(not bad, "vm.rs:VmGreenThread::status:order", VM, s["l"],
+                 f"status() must report a pending host call first, then done, then a stored error, else out of steps; for (pending, done, error) it differs at {bad}", sample="status(): truth table over (pending, done, error) = pending > done > error > out of steps")
+        except (ValueError, KeyError, IndexError, TypeError) as ex:
+            r.missing("vm.rs:VmGreenThread::status:form", VM, f"not evaluable: {ex}")
         # the error reported is the stored one
         errs = [x for x in q.walk(s["body"]) if x["k"] == "Call" and q.show(x["f"]) == "VmStatus::Error"]
         r.ob(bool(errs) and "err" in q.show(errs[0]["args"][0]), "vm.rs:VmGreenThread::status:error-payload", VM, s["l"], "status() must report the stored error")
@@ -123,7 +219,16 @@ def status_map(ctx, r):
         want = {"VmStatus::Done": "Done", "VmStatus::PendingHostFunc(_)": "PendingHostFunc", "VmStatus::Error(e)": "MainThreadError(e)", "VmStatus::OutOfSteps": None}
         r.ob(tbl == want, "vm.rs:Runtime::update_status_helper:mapping", VM, u["l"], f"main-thread status mapping is {tbl}; required {want}", sample=f"update_status_helper: {tbl}")
         tail = q.body_stmts(u["body"])[-1]
-        r.ob(q.show(tail.get("e")) == "RuntimeStatusKind::OutOfSteps", "vm.rs:Runtime::update_status_helper:default", VM, u["l"], "the default status must be OutOfSteps")
+        te = tail.get("e") or {}
+        okd = q.show(te) == "RuntimeStatusKind::OutOfSteps"
+        if not okd and te.get("k") == "If" and te.get("e") is not None:
+            # `if <some other thread waits on the host> { PendingHostFunc } else { OutOfSteps }`
+            cvars = q.idents_in(te["c"])
+            src = " ".join(q.show(l["init"]) for l in q.walk(u["body"]) if l["k"] == "Local" and l.get("init") is not None and set(q.pat_bindings(l["pat"])) & cvars) + " " + q.show(te["c"])
+            th = [q.last_seg(x["p"]) for x in q.walk(te["t"]) if x["k"] == "Path" and x["p"].startswith("RuntimeStatusKind::")]
+            el = [q.last_seg(x["p"]) for x in q.walk(te["e"]) if x["k"] == "Path" and x["p"].startswith("RuntimeStatusKind::")]
+            okd = th == ["PendingHostFunc"] and el == ["OutOfSteps"] and "PendingHostFunc" in src + "".join(q.show(y) for l in q.walk(u["body"]) if l["k"] == "Local" for y in q.walk(l.get("init") or {}) if y.get("k") == "Macro")
+        r.ob(okd, "vm.rs:Runtime::update_status_helper:default", VM, u["l"], "when the main thread is merely out of steps the status is OutOfSteps, unless another thread waits on a host call")
     # the HostFunc arm only records the id and yields
     arms = _arms(ctx, r)
     if arms is None:
@@ -199,7 +304,7 @@ def main_done(ctx, r):
             continue
         has_flag = "bool" in (g.get("ret") or "")
         for x in q.walk(g["body"]):
-            if x["k"] == "If" and "finish_thread_turn" in q.show(x["c"]):
+            if x["k"] == "If" and "finish_thread_turn" in cond_calls(g, x["c"]):
                 n += 1
                 rets = [q.show(y["e"]) if y.get("e") is not None else "" for y in q.walk(x["t"]) if y["k"] == "Return"]
                 ok = bool(rets) and (not has_flag or all(t.startswith("true") or t.startswith("(true") for t in rets))
@@ -292,9 +397,7 @@ def slice_invariant(ctx, r):
         if e is None:
             continue
         if e["k"] == "If":
-            for x in q.walk(e["c"]):
-                if x["k"] == "MethodCall" and q.show(x["recv"]) == "self":
-                    uncond.add(x["m"])
+            uncond.update(cond_calls(f, e["c"]))
         elif e["k"] == "MethodCall" and q.show(e["recv"]) == "self":
             uncond.add(e["m"])
     for x in post:
